@@ -53,6 +53,30 @@ pub struct Pair<A, B = i32> {
     pub b: Vec<B>,
 }
 
+/// Stands for a type parameter `T` when the facts about `Option<T>`, `Vec<T>`, `Gen<T>` .. are measured:
+/// the same shape as the placeholder type the derive itself generates inside `decl()`.
+#[derive(Debug, Clone, Copy, PartialEq, Eq, Hash, PartialOrd, Ord)]
+pub struct ParamT;
+impl TS for ParamT {
+    type WithoutGenerics = ParamT;
+    type OptionInnerType = Self;
+    fn name() -> String {
+        "T".to_owned()
+    }
+    fn inline() -> String {
+        "T".to_owned()
+    }
+    fn inline_flattened() -> String {
+        "T".to_owned()
+    }
+    fn decl() -> String {
+        panic!("T cannot be declared")
+    }
+    fn decl_concrete() -> String {
+        panic!("T cannot be declared")
+    }
+}
+
 pub struct Entry {
     pub name: &'static str,
     pub info: fn() -> String,
